@@ -529,6 +529,86 @@ theorem C02_models_history (cfg : NCfg) (hwf : cfg.states.WF = true) (sc : Scrip
       · rw [C02_models_frame sc cfg qmax fuel m ev ms ms1 h1 m' hm] at hs1
         exact hI m' s1 hs1
 
+/-! ### membership operations between events -/
+
+theorem alookup_append_some {β : Type} (k : Nat) (v : β) : ∀ (l r : List (Nat × β)), alookup k l = some v →
+    alookup k (l ++ r) = some v
+  | [], _, h => by simp [alookup] at h
+  | (k', v') :: l, r, h => by
+    simp only [List.cons_append, alookup] at h ⊢
+    split
+    · rename_i hk; simpa [hk] using h
+    · rename_i hk; simp only [hk, if_false] at h; exact alookup_append_some k v l r h
+
+theorem alookup_append_none {β : Type} (k : Nat) : ∀ (l r : List (Nat × β)), alookup k l = none →
+    alookup k (l ++ r) = alookup k r
+  | [], _, _ => rfl
+  | (k', v') :: l, r, h => by
+    simp only [List.cons_append, alookup] at h ⊢
+    split
+    · rename_i hk; simp [hk] at h
+    · rename_i hk; simp only [hk, if_false] at h; exact alookup_append_none k l r h
+
+/-- **add_model does not touch a registered model**: whatever list of models is passed (registered ones, new ones, a
+model twice), a model that is registered keeps its engine state - configuration AND ghost log, hence its
+entered-and-not-exited set -/
+theorem C02_add_models_frame (fresh : NSt) : ∀ (ids : List Nat) (ms : MSt) (m : Nat) (s : NSt),
+    alookup m ms = some s → alookup m (addModels fresh ids ms) = some s
+  | [], _, _, _, h => h
+  | i :: r, ms, m, s, h => by
+    unfold addModels
+    split
+    · exact C02_add_models_frame fresh r ms m s h
+    · exact C02_add_models_frame fresh r _ m s (alookup_append_some m s ms _ h)
+
+/-- a model that is named and was not registered starts from the registration state -/
+theorem C02_add_models_new (fresh : NSt) : ∀ (ids : List Nat) (ms : MSt) (m : Nat),
+    alookup m ms = none → m ∈ ids → alookup m (addModels fresh ids ms) = some fresh
+  | [], _, _, _, hin => by simp at hin
+  | i :: r, ms, m, h, hin => by
+    unfold addModels
+    by_cases him : i = m
+    · subst him
+      simp only [h]
+      exact C02_add_models_frame fresh r _ i fresh (by rw [alookup_append_none i ms _ h]; simp [alookup])
+    · have hin' : m ∈ r := by
+        rcases List.mem_cons.mp hin with h1 | h1
+        · exact absurd h1.symm him
+        · exact h1
+      split
+      · exact C02_add_models_new fresh r ms m h hin'
+      · refine C02_add_models_new fresh r _ m ?_ hin'
+        rw [alookup_append_none m ms _ h]; simp [alookup, him]
+
+/-- a model that is not named stays unregistered -/
+theorem C02_add_models_unnamed (fresh : NSt) : ∀ (ids : List Nat) (ms : MSt) (m : Nat),
+    alookup m ms = none → m ∉ ids → alookup m (addModels fresh ids ms) = none
+  | [], _, _, h, _ => h
+  | i :: r, ms, m, h, hin => by
+    have him : i ≠ m := fun e => hin (by simp [e])
+    have hin' : m ∉ r := fun e => hin (List.mem_cons_of_mem _ e)
+    unfold addModels
+    split
+    · exact C02_add_models_unnamed fresh r ms m h hin'
+    · refine C02_add_models_unnamed fresh r _ m ?_ hin'
+      rw [alookup_append_none m ms _ h]; simp [alookup, him]
+
+/-- **remove_model does not touch the models that stay** -/
+theorem C02_remove_models_frame (ids : List Nat) : ∀ (ms : MSt) (m : Nat), m ∉ ids →
+    alookup m (removeModels ids ms) = alookup m ms
+  | [], _, _ => rfl
+  | (k, v) :: ms, m, h => by
+    have ih := C02_remove_models_frame ids ms m h
+    unfold removeModels at ih ⊢
+    rw [List.filter_cons]
+    by_cases hk : k = m
+    · subst hk
+      have hc : (!ids.contains k) = true := by simpa using h
+      simp only [hc, if_true, alookup]
+    · cases hc : (!ids.contains k)
+      · simp only [Bool.false_eq_true, if_false, alookup, hk]; exact ih
+      · simp only [if_true, alookup, hk, if_false]; exact ih
+
 /-! ### the state value and the observable trace -/
 
 /-- the model keeps the configuration as a tree, the code keeps `_build_state_list(tree)` in the model's state
